@@ -337,9 +337,12 @@ def check_item(spec):
     except boolq.Unsupported as e:
         res.update(status="skip", note="unsupported term %s" % e)
         return res
+    # the return bits are the declared ones (a local called _retval is an intermediate)
+    declared = set(qf.returns.bitvec) if spec["kind"] == "prog" else None
+    is_ret = lambda nm: (nm in declared) if declared is not None else (nm == "_ret" or nm.startswith("_ret."))
     rets = []
     for s, e in raw:
-        if s.name.startswith("_ret") and s.name not in rets:
+        if is_ret(s.name) and s.name not in rets:
             rets.append(s.name)
     s = z3.Solver()
     s.set("rlimit", RLIMIT)
@@ -367,7 +370,7 @@ def check_item(spec):
         except Exception as e:
             res["findings"].append({"kind": "raises:" + pname, "what": "%s raises %s: %s" % (pname, type(e).__name__, str(e)[:100]), "cex": {}, "replayed": True})
             continue
-        out_rets = [x.name for x, _ in out if x.name.startswith("_ret")]
+        out_rets = [x.name for x, _ in out if is_ret(x.name)]
         lost = [r for r in rets if r not in out_rets]
         if lost:
             res["findings"].append({"kind": "lost-ret:" + pname, "what": "return symbols %s missing after %s" % (lost, pname), "cex": {}, "replayed": True})
